@@ -192,6 +192,19 @@ def run(ctx):
         if r.cls != "error" or r.stdout != b"":
             ctx.violation("reject-invalid-utf8", dict(op="hex decode", stdin_hex=b.hex()), dict(exit="error", stdout=""),
                           dict(exit=r.cls, stdout=short(r.stdout)))
+    # DATA named by a path that is a pipe (/dev/stdin): length unknown in advance
+    pr = []
+    for d in (b"hello", rbytes(rng, 300), rbytes(rng, 70000), b""):
+        pr.append(dict(args=["hex", "encode", "/dev/stdin"], stdin=d, want=b"0x" + d.hex().encode() + b"\n", cls="ok"))
+        pr.append(dict(args=["hex", "decode", "/dev/stdin"], stdin=b"0x" + d.hex().encode(), want=d, cls="ok"))
+    pr.append(dict(args=["hex", "decode", "/dev/stdin"], stdin=b"0xabc", want=b"", cls="error"))
+    pr.append(dict(args=["hex", "decode", "/dev/stdin"], stdin=b"0xzz", want=b"", cls="error"))
+    for rn, r in zip(pr, ctx.cli(pr)):
+        ctx.count("pipe-as-path")
+        ctx.distinct(("pipe", tuple(rn["args"]), rn["stdin"][:40]))
+        if r.cls != rn["cls"] or r.stdout != rn["want"]:
+            ctx.violation("data-path-is-a-pipe", dict(op="hdwallet " + " ".join(rn["args"]), stdin=short(rn["stdin"])), dict(exit=rn["cls"], stdout=short(rn["want"])),
+                          dict(exit=r.cls, stdout=short(r.stdout)))
     ctx.exhaustive["every non-hex non-space ASCII character in a digit position (decode)"] = True
     ctx.exhaustive["single bytes 0x00..0xff (encode, round trip)"] = True
     ctx.exhaustive["lengths 0..300 (encode, round trip)"] = True
